@@ -136,6 +136,10 @@ type VerifTicker struct {
 	last    timeoutInfo
 	pending []timeoutInfo // scheduled and not yet fired, oldest first
 	tock    chan timeoutInfo
+	// the real ticker's ScheduleTimeout hands over through a channel of
+	// tickTockBufferSize entries that only a started ticker drains
+	started     bool
+	beforeStart int
 }
 
 // NewVerifTicker makes a recording ticker.
@@ -143,13 +147,31 @@ func NewVerifTicker() *VerifTicker {
 	return &VerifTicker{tock: make(chan timeoutInfo, 1)}
 }
 
-func (t *VerifTicker) Start() (bool, error)     { return true, nil }
+func (t *VerifTicker) Start() (bool, error) {
+	t.mtx.Lock()
+	t.started = true
+	t.mtx.Unlock()
+	return true, nil
+}
+
+// VerifWouldBlockBeforeStart reports how many timeouts were scheduled before
+// Start and whether that exceeds what the real ticker accepts before it runs
+// (its ScheduleTimeout would block for good).
+func (t *VerifTicker) VerifWouldBlockBeforeStart() (int, bool) {
+	t.mtx.Lock()
+	defer t.mtx.Unlock()
+	return t.beforeStart, t.beforeStart > tickTockBufferSize
+}
+
 func (t *VerifTicker) Stop() bool               { return true }
 func (t *VerifTicker) Chan() <-chan timeoutInfo { return t.tock }
 
 func (t *VerifTicker) ScheduleTimeout(newti timeoutInfo) {
 	t.mtx.Lock()
 	defer t.mtx.Unlock()
+	if !t.started {
+		t.beforeStart++
+	}
 	ti := t.last
 	if newti.Height < ti.Height {
 		return
